@@ -785,7 +785,7 @@ func C09(tier string) int {
 		b, _ := json.Marshal(j)
 		jobs = append(jobs, b)
 	}
-	pool := par.NewPool(Workers(), "worker", "c09")
+	pool := par.NewPool(WorkersCPU(), "worker", "c09")
 	pool.Timeout = 40 * time.Minute
 	defer pool.Close()
 	states, trans, orders, maxDepth := 0, 0, 0, 0
